@@ -16,6 +16,25 @@ STDLIB_RAISES = {
     'parse': ['SyntaxError'],            # ast.parse of a source text
     '__import__': ['ImportError'],       # importing a compiled / dynamic module
 }
+# fields that hold live objects of the analysed environment (runtime modules, their members, instances made from them):
+# reading an attribute of such an object runs foreign code - descriptors, module-level __getattr__ (PEP 562) - which may
+# raise anything; getattr's default and hasattr only absorb AttributeError
+RUNTIME_FIELDS = {('RuntimeName', 'value'), ('ImportedModule', 'module')}
+FOREIGN_READS = ('getattr', 'hasattr')
+
+
+def runtime_exprs(fi):
+    """Expression texts denoting a live runtime object inside method fi: self.<field> and locals assigned from it."""
+    if fi.cls is None:
+        return set()
+    fields = {f for c in fi.cls.mro() for (cn, f) in RUNTIME_FIELDS if cn == c.name}
+    out = {'self.%s' % f for f in fields}
+    for n in ast.walk(fi.node):
+        if isinstance(n, ast.Assign) and len(n.targets) == 1 and isinstance(n.targets[0], ast.Name) and unparse(n.value) in out:
+            out.add(n.targets[0].id)
+    return out
+
+
 # exception hierarchy (child -> parent)
 PARENT = {
     'ImportError': 'Exception', 'ModuleNotFoundError': 'ImportError', 'SyntaxError': 'Exception',
@@ -79,6 +98,12 @@ class Escape(object):
                         PARENT[cls] = (c.base_names[0].split('.')[-1] if c and c.base_names else 'Exception')
                     if not caught_by(n, cls, fi.node):
                         self.raises[k].setdefault(cls, ['%s:%d raise %s' % (fi.rel, n.lineno, cls)])
+                if isinstance(n, ast.Call) and isinstance(n.func, ast.Name) and n.func.id in FOREIGN_READS and n.args:
+                    rt = runtime_exprs(fi)
+                    if unparse(n.args[0]) in rt and not caught_by(n, 'AnyException', fi.node):
+                        self.raises[k].setdefault('AnyException', [
+                            '%s:%d %s(%s, ...) reads an attribute of a live object of the analysed environment (foreign code: '
+                            'descriptors, module __getattr__) and may raise anything' % (fi.rel, n.lineno, n.func.id, unparse(n.args[0]))])
                 if isinstance(n, ast.Call):
                     f = unparse(n.func)
                     for suffix, excs in list(STDLIB_RAISES.items()) + list(self.extra.items()):
